@@ -14,11 +14,12 @@ from fractions import Fraction
 from vlib.coqlit import cnat, cz, cbool, clist, copt, cpair, cstr, cq, cjv
 
 ID = "SRC"
-COQ_PROPS = ["Props/SRC.v", "Props/SRCfilter.v", "Props/SRClookup.v", "Props/SRCvalid.v", "Props/SRCalg.v", "Props/SRCstate.v"]
+COQ_PROPS = ["Props/SRC.v", "Props/SRCfilter.v", "Props/SRClookup.v", "Props/SRCvalid.v", "Props/SRCalg.v", "Props/SRCstate.v", "Props/SRCsubset.v"]
 THEOREMS = ["SRC_is_constant", "SRC_is_repeating", "SRC_class_names", "SRC_valid_classes", "SRC_class_valid", "SRC_multiplicity",
             "SRC_multiplicity_foreign", "SRC_const_period", "SRC_n_slices", "SRC_key_regex_filter", "SRC_make_key_regex_filter",
             "SRC_meta_valid", "SRC_get_meta", "SRC_getitem", "SRC_valid_classes_dyn", "SRC_multiplicity_dyn", "SRC_check_valid",
-            "SRC_global_slice_subset", "SRC_changed_class", "SRC_change_class", "SRC_simplify", "SRC_to_content_holds"]
+            "SRC_global_slice_subset", "SRC_changed_class", "SRC_change_class", "SRC_simplify", "SRC_to_content_holds",
+            "SRC_copy_slice_step", "SRC_copy_slice"]
 TABLES = ["t_src_ext", "t_src_filter", "t_src_lookup", "t_src_valid", "t_src_state", "t_classes", "t_ext_tol", "t_content"]
 ALLOWED_AXIOMS = []
 TRUSTED_BASE = ["tools/tables/py2coq.py (+ t_src_ext.py, t_src_filter.py): typed statement translator Python -> Gallina, "
@@ -663,13 +664,7 @@ class Valid:
 
     @staticmethod
     def oracle(case, obs):
-        from props import c10
-        if not isinstance(obs, dict) or 'r' not in obs or case['kind'] == 'nondict-entry':
-            return None
-        j = c10.judge(case['content'], obs['r'] == 'ok', 'check_valid / from_json', obs['r'])
-        if j and j[1] != c10.KNOWN_SIG:        # the blind spots of check_valid are C10's open finding, not ours
-            return j[0]
-        return None
+        return None       # the property of this part is the correspondence itself; which contents SHOULD be accepted is C10's question
 
     @staticmethod
     def signature(case, obs, msg):
